@@ -269,6 +269,21 @@ type bOuter2 struct {
 	N int
 }
 
+type bOuter3 struct {
+	*BEmb
+	N int
+}
+type bDeep struct {
+	BOuter2
+	Z string `clover:"z"`
+}
+
+// BOuter2 is exported so that it can be embedded in turn (two levels of flattening)
+type BOuter2 struct {
+	BEmb
+	N int
+}
+
 func TestVerifBoundedNormalize(t *testing.T) {
 	cases := leaves()
 	frontier := cases
@@ -288,6 +303,11 @@ func TestVerifBoundedNormalize(t *testing.T) {
 	cases = append(cases, fixedStructCases()...)
 	// embedded exported struct is flattened
 	cases = append(cases, bcase{"embedded-flattened", bOuter2{BEmb{2.5}, 4}, map[string]interface{}{"E": float64(2.5), "N": int64(4)}, false})
+	// embedded through a pointer: followed and flattened like the value
+	cases = append(cases, bcase{"embedded-ptr-flattened", bOuter3{&BEmb{2.5}, 4}, map[string]interface{}{"E": float64(2.5), "N": int64(4)}, false})
+	cases = append(cases, bcase{"ptr-to-embedded-ptr-flattened", &bOuter3{&BEmb{0}, 0}, map[string]interface{}{"E": float64(0), "N": int64(0)}, false})
+	// two levels of embedding
+	cases = append(cases, bcase{"embedded-twice-flattened", bDeep{BOuter2{BEmb{1}, 2}, "z"}, map[string]interface{}{"E": float64(1), "N": int64(2), "z": "z"}, false})
 	failed, nonTime := 0, 0
 	byLaw := map[string]int{}
 	report := func(c bcase, law string, format string, a ...interface{}) {
